@@ -487,7 +487,7 @@ func genC06(g *mon.G) {
 	r := gen.Rand(g.Seed)
 	cfgs := []lab.Cfg{{}, {DataPad: 9}, {IndexPad: 16}, {Sorted: true, StoreID: true}, {V1: true}, {V1: true, StoreID: true}, {DataPad: 3, IndexPad: 5, ZeroEOF: true}, {WholeCID: true}}
 	gens := []string{"", "", "discarded", "finalized"}
-	n := g.Pick(64, 640)
+	n := g.Pick(192, 1920)
 	for i := 0; i < n; i++ {
 		g.Emit(c06Desc{Seed: r.Int63(), API: []string{"blockstore", "storage"}[i%2], Cfg: cfgs[(i/2)%len(cfgs)], FirstGen: gens[(i/16)%len(gens)], AllBytes: g.Thorough() || i%8 == 0})
 	}
